@@ -21,6 +21,15 @@ func main() {
 		// the callback scenarios alone: what C06's `Verifying` hypothesis rests on (the principal's
 		// approval of the first intent of a connection is an additional verify callback of the
 		// handshake with the target, hopclient/principal.go setupTargetClient)
+		"C01cfg": {Gen: genCfg, Run: runCfg},
+		// the virtual-host glue of the real NewHopServer alone (part of C10's check)
+		"C10sni": {Gen: func(g *GenCtx) {
+			for i := 0; i < 3; i++ {
+				for _, k := range []string{"match", "nomatch", "type7f-nomatch", "type7f-match", "empty"} {
+					g.Op("sni %s", k)
+				}
+			}
+		}, Run: runCfg},
 		"C01cb": {Gen: func(g *GenCtx) {
 			genCallbacks(g, func(m, p, s, c string, listed int, name string) {
 				g.Op("hs %s %s %s %s %d %s", m, p, s, c, listed, name)
